@@ -77,16 +77,18 @@ def closing (c : Closer) : Bool :=
   | _ => true
 
 structure TInv (s : TState) : Prop where
-  /-- the WaitGroup counts the sessions that still owe a Done, plus the ones that never will -/
-  wgEq : s.wg = s.sess.countP owes + s.leaked
+  /-- the WaitGroup counts exactly the sessions that still owe a Done -/
+  wgEq : s.wg = s.sess.countP owes
   quitOk : s.closer = .waitUpdater → s.quit = true
   lockOk : closing s.closer = true → s.usersLock = true
   sigOk : s.closer = .waitStates → ∀ i, s.sessAt i = .running → s.signalled.getD i false = true
   wgZero : closedPhase s.closer = true → s.wg = 0
   openOk : (s.dbOpen = false ∨ s.storeOpen = false) → closedPhase s.closer = true
   noUse : s.useAfterClose = false
+  /-- a state stays unclosed only if the DB write of removeState failed -/
+  unclosedOk : s.writeFails = false → s.unclosedStates = 0
 
-theorem tinv_init (n : Nat) (a b c : Bool) : TInv (TState.init n a b c) := by
+theorem tinv_init (n : Nat) (a b c d : Bool) : TInv (TState.init n a b c d) := by
   constructor <;> simp [TState.init, closing, closedPhase, owes, List.countP_replicate]
 
 /-! ### effect of a session step -/
@@ -115,8 +117,8 @@ theorem tinv_sess_step (s : TState) (i : Nat) (a x : Sess) (s' : TState)
     (hs' : s'.sess = s.sess.set i x) (hsig : s'.signalled = s.signalled) (hcl : s'.closer = s.closer)
     (hq : s'.quit = s.quit) (hul : s'.usersLock = s.usersLock) (hdb : s'.dbOpen = s.dbOpen)
     (hso : s'.storeOpen = s.storeOpen)
-    (hC : s'.wg + (if owes a then 1 else 0) + s.leaked = s.wg + (if owes x then 1 else 0) + s'.leaked)
-    (hleak : s'.leaked = s.leaked ∨ owes a = true)
+    (hC : s'.wg + (if owes a then 1 else 0) = s.wg + (if owes x then 1 else 0))
+    (hun : s'.writeFails = s.writeFails ∧ (s'.unclosedStates = s.unclosedStates ∨ s.writeFails = true))
     (hrun : x = .running → closing s.closer = false)
     (hclosed : owes x = true → owes a = true ∨ closedPhase s.closer = false)
     (huse : s'.useAfterClose = false) : TInv s' := by
@@ -155,13 +157,13 @@ theorem tinv_sess_step (s : TState) (i : Nat) (a x : Sess) (s' : TState)
       | true => cases hclosed hox with
         | inl h1 => rw [hao] at h1; cases h1
         | inr h2 => rw [hc] at h2; cases h2
-    have hl : s'.leaked = s.leaked := by
-      cases hleak with
-      | inl h1 => exact h1
-      | inr h2 => rw [hao] at h2; cases h2
     simp [hao, hxo] at hC; omega
   · rw [hdb, hso, hcl]; exact h.openOk
   · exact huse
+  · rw [hun.1]; intro hw
+    cases hun.2 with
+    | inl h1 => rw [h1]; exact h.unclosedOk hw
+    | inr h2 => rw [hw] at h2; cases h2
 
 theorem wg_pos (s : TState) (h : TInv s) (i : Nat) (ho : owes (s.sessAt i) = true) : 0 < s.wg := by
   have hne : s.sessAt i ≠ .gone := by intro e; rw [e] at ho; cases ho
@@ -210,8 +212,13 @@ theorem tinv_apply (s : TState) (st : TStep) (h : TInv s) (hen : s.enabled st = 
     apply tinv_sess_step s i .relRead .relLock _ h hen (by simp) <;> simp [apply, setSess, owes, h.noUse, hdb]
   | readFail i =>
     simp only [enabled, Bool.and_eq_true, beq_iff_eq] at hen
-    apply tinv_sess_step s i .relRead .gone _ h hen.1 (by simp) <;> simp [apply, setSess, owes, h.noUse]
-    omega
+    have hp := wg_pos s h i (by rw [hen.1]; rfl)
+    have hnc := not_closed_of_wg_pos s h hp
+    have hdb : s.dbOpen = true := by
+      cases hd : s.dbOpen with
+      | true => rfl
+      | false => have := h.openOk (Or.inl hd); rw [hnc] at this; cases this
+    apply tinv_sess_step s i .relRead .relLock _ h hen.1 (by simp) <;> simp [apply, setSess, owes, h.noUse, hdb]
   | lockDelete i =>
     simp only [enabled, beq_iff_eq] at hen
     apply tinv_sess_step s i .relLock .relWrite _ h hen (by simp) <;> simp [apply, setSess, owes, h.noUse]
@@ -230,30 +237,41 @@ theorem tinv_apply (s : TState) (st : TStep) (h : TInv s) (hen : s.enabled st = 
     apply tinv_sess_step s i .relWrite .gone _ h hen (by simp) <;>
       simp [apply, setSess, owes, h.noUse, hdb, hso]
     omega
+  | finishFail i =>
+    simp only [enabled, Bool.and_eq_true, beq_iff_eq] at hen
+    have hp := wg_pos s h i (by rw [hen.1]; rfl)
+    have hnc := not_closed_of_wg_pos s h hp
+    have hdb : s.dbOpen = true := by
+      cases hd : s.dbOpen with
+      | true => rfl
+      | false => have := h.openOk (Or.inl hd); rw [hnc] at this; cases this
+    apply tinv_sess_step s i .relWrite .gone _ h hen.1 (by simp) <;>
+      simp [apply, setSess, owes, h.noUse, hdb, hen.2]
+    omega
   | beginClose =>
     simp only [enabled, Bool.and_eq_true, beq_iff_eq] at hen
     obtain ⟨hc, _⟩ := hen
-    have := h.wgEq; have := h.openOk; have := h.noUse
+    have := h.unclosedOk; have := h.wgEq; have := h.openOk; have := h.noUse
     constructor <;> simp_all [apply, closing, closedPhase]
   | closeQuit =>
     simp only [enabled, beq_iff_eq] at hen
-    have := h.wgEq; have := h.openOk; have := h.noUse; have := h.lockOk
+    have := h.unclosedOk; have := h.wgEq; have := h.openOk; have := h.noUse; have := h.lockOk
     constructor <;> simp_all [apply, closing, closedPhase]
   | updaterExit =>
     have h1 := h.wgEq; have h2 := h.openOk; have h3 := h.noUse; have h4 := h.lockOk
-    have h5 := h.quitOk; have h6 := h.sigOk; have h7 := h.wgZero
+    have h5 := h.quitOk; have h6 := h.sigOk; have h7 := h.wgZero; have h8 := h.unclosedOk
     constructor <;> simp_all [apply, TState.sessAt]
   | updaterWaited =>
     simp only [enabled, Bool.and_eq_true, beq_iff_eq] at hen
-    have := h.wgEq; have := h.openOk; have := h.noUse; have := h.lockOk
+    have := h.unclosedOk; have := h.wgEq; have := h.openOk; have := h.noUse; have := h.lockOk
     constructor <;> simp_all [apply, closing, closedPhase]
   | connOk =>
     simp only [enabled, beq_iff_eq] at hen
-    have := h.wgEq; have := h.openOk; have := h.noUse; have := h.lockOk
+    have := h.unclosedOk; have := h.wgEq; have := h.openOk; have := h.noUse; have := h.lockOk
     constructor <;> simp_all [apply, closing, closedPhase]
   | connFail =>
     simp only [enabled, Bool.and_eq_true, beq_iff_eq] at hen
-    have := h.wgEq; have := h.openOk; have := h.noUse; have := h.lockOk
+    have := h.unclosedOk; have := h.wgEq; have := h.openOk; have := h.noUse; have := h.lockOk
     constructor <;> simp_all [apply, closing, closedPhase]
   | signalAll =>
     simp only [enabled, beq_iff_eq] at hen
@@ -272,17 +290,18 @@ theorem tinv_apply (s : TState) (st : TStep) (h : TInv s) (hen : s.enabled st = 
     · simp [apply, closedPhase]
     · intro hh; have := h2 (by simpa [apply] using hh); rw [hen] at this; simp [closedPhase] at this
     · simpa [apply] using h3
+    · simpa [apply] using h.unclosedOk
   | waitDone =>
     simp only [enabled, Bool.and_eq_true, beq_iff_eq] at hen
-    have := h.wgEq; have := h.openOk; have := h.noUse; have := h.lockOk
+    have := h.unclosedOk; have := h.wgEq; have := h.openOk; have := h.noUse; have := h.lockOk
     constructor <;> simp_all [apply, closing, closedPhase]
   | storeClosed =>
     simp only [enabled, beq_iff_eq] at hen
-    have := h.wgEq; have := h.openOk; have := h.noUse; have := h.lockOk; have := h.wgZero
+    have := h.unclosedOk; have := h.wgEq; have := h.openOk; have := h.noUse; have := h.lockOk; have := h.wgZero
     constructor <;> simp_all [apply, closing, closedPhase]
   | dbClosed =>
     simp only [enabled, beq_iff_eq] at hen
-    have := h.wgEq; have := h.openOk; have := h.noUse; have := h.lockOk; have := h.wgZero
+    have := h.unclosedOk; have := h.wgEq; have := h.openOk; have := h.noUse; have := h.lockOk; have := h.wgZero
     constructor <;> simp_all [apply, closing, closedPhase]
 
 
@@ -296,16 +315,12 @@ theorem tinv_run (s : TState) (steps : List TStep) (h : TInv s) : TInv (s.run st
   | nil => exact h
   | cons st rest ih => exact ih _ (tinv_step s st h)
 
-/-! ### configuration switches never change; `leaked` only grows by `readFail` -/
+/-! ### configuration switches never change -/
 
 theorem cfg_apply (s : TState) (st : TStep) :
     (s.apply st).observes = s.observes ∧ (s.apply st).readFails = s.readFails ∧
-    (s.apply st).connCloseFails = s.connCloseFails := by
+    (s.apply st).writeFails = s.writeFails ∧ (s.apply st).connCloseFails = s.connCloseFails := by
   cases st <;> simp [apply, setSess] <;> split <;> simp
-
-theorem leaked_apply (s : TState) (st : TStep) (hen : s.enabled st = true) (hrf : s.readFails = false) :
-    (s.apply st).leaked = s.leaked := by
-  cases st <;> simp [apply, setSess] <;> first | (split <;> simp) | (simp [enabled, hrf] at hen)
 
 /-! ### the measure decreases -/
 
@@ -333,6 +348,11 @@ theorem measure_apply (s : TState) (st : TStep) (h : TInv s) (hc : closing s.clo
     have := rank_setSess s i .relLock (by rw [hen]; simp)
     simp [apply, hen, measure, setSess, sessRank] at this ⊢; omega
   | readFail i =>
+    simp only [enabled, Bool.and_eq_true, beq_iff_eq] at hen
+    have ha := hen.1
+    have := rank_setSess s i .relLock (by rw [ha]; simp)
+    simp [apply, ha, measure, setSess, sessRank] at this ⊢; omega
+  | finishFail i =>
     simp only [enabled, Bool.and_eq_true, beq_iff_eq] at hen
     have ha := hen.1
     have := rank_setSess s i .gone (by rw [ha]; simp)
@@ -376,7 +396,7 @@ theorem exists_owing (s : TState) (h : 0 < s.sess.countP owes) : ∃ i, owes (s.
   refine ⟨i, ?_⟩
   unfold TState.sessAt; rw [List.getD_eq_getElem?_getD, List.getElem?_eq_getElem hi]; simpa using hp
 
-theorem progress (s : TState) (h : TInv s) (hc : closing s.closer = true) (hl : s.leaked = 0)
+theorem progress (s : TState) (h : TInv s) (hc : closing s.closer = true)
     (hobs : s.observes = true) : ∃ st, st.must = true ∧ s.enabled st = true := by
   cases hcl : s.closer with
   | idle => rw [hcl] at hc; simp [closing] at hc
@@ -410,7 +430,7 @@ theorem progress (s : TState) (h : TInv s) (hc : closing s.closer = true) (hl : 
 
 theorem completes_of_measure (n : Nat) (s : TState) (hm : measure s ≤ n) (h : TInv s)
     (hc : closing s.closer = true ∨ ∃ ok, s.closer = .returned ok)
-    (hl : s.leaked = 0) (hobs : s.observes = true) (hrf : s.readFails = false) : Completes s := by
+    (hobs : s.observes = true) : Completes s := by
   induction n generalizing s with
   | zero =>
     cases hc with
@@ -422,11 +442,11 @@ theorem completes_of_measure (n : Nat) (s : TState) (hm : measure s ≤ n) (h : 
     cases hc with
     | inr hr => obtain ⟨ok, hr⟩ := hr; exact Completes.done hr
     | inl hc =>
-      refine Completes.step (progress s h hc hl hobs) ?_
+      refine Completes.step (progress s h hc hobs) ?_
       intro st hen
       have hlt := measure_apply s st h hc hen
-      obtain ⟨ho, hr, _⟩ := cfg_apply s st
+      obtain ⟨ho, _⟩ := cfg_apply s st
       exact ih (s.apply st) (by omega) (tinv_apply s st h hen) (closing_apply s st hc hen)
-        (by rw [leaked_apply s st hen hrf]; exact hl) (by rw [ho]; exact hobs) (by rw [hr]; exact hrf)
+        (by rw [ho]; exact hobs)
 
 end Gluon.Conc
